@@ -14,4 +14,5 @@ size_t alloc_live_bytes();
 size_t alloc_peak_bytes();
 bool alloc_overflowed();
 std::string alloc_live_summary();
+void alloc_describe_live();
 }
